@@ -176,20 +176,24 @@ def describe(inst):
 
 # ------------------------------------------------------------------ the real solvers
 def _config(inst, ssm, strategy, nsteps=None, lin=None, cal=None):
-    return (ssm, inst["q"], inst["d"], inst["k"], lin or inst["lin"], cal or inst["cal"], strategy, nsteps or inst["nsteps"], inst["eps"] == 0, inst["initc"], int(inst.get("diffuse", 0)))
+    return (ssm, inst["q"], inst["d"], inst["k"], lin or inst["lin"], cal or inst["cal"], strategy, nsteps or inst["nsteps"], inst["eps"] == 0, inst["initc"], int(inst.get("diffuse", 0)), F(inst.get("deps", 1)) == 1, int(inst.get("lift", 0)))
 
 
 @functools.lru_cache(maxsize=None)
 def _runner(cfg):
     """jitted real solve for one configuration; everything numeric is an argument (one compilation per configuration)"""
-    ssm_name, q, d, k, lin, cal, strategy, nsteps, exact, initc, diffuse = cfg
+    ssm_name, q, d, k, lin, cal, strategy, nsteps, exact, initc, diffuse, default_deps, lift = cfg
 
     def run(par, tc, lam, eps, damp, grid, deps):
         ode = _ode(k, par)
         ssm = SSMS[ssm_name]()
         tcoeffs = [tc[j] for j in range(q + 1 - diffuse)]
         base = lam[0] if ssm_name == "iso" else lam
-        prior = ssm.prior_wiener_integrated(tcoeffs, is_exact=exact, inexact_eps=eps, output_scale=base, diffuse_derivatives=diffuse, diffuse_eps=deps)
+        # a diffuse standard deviation of one is the documented default of every factorisation: rely on it
+        dkw = {} if default_deps else {"diffuse_eps": deps}
+        prior = ssm.prior_wiener_integrated(tcoeffs, is_exact=exact, inexact_eps=eps, output_scale=base, diffuse_derivatives=diffuse, **dkw)
+        if lift:  # relational scenarios only: constraints with several output rows per dimension
+            ode = ode.jet_lift(lift_by=lift)
         constraint = ssm.constraint_ode_ts0(ode) if lin == "ts0" else ssm.constraint_ode_ts1(ode)
         solver = SOLVERS[cal](strategy=STRATEGIES[strategy](), constraint=constraint, constraint_init=constraint if initc else None)
         sol = ivpsolve.solve_fixed_grid(solver=solver)(prior, grid=grid, damp=damp)
@@ -435,6 +439,10 @@ def gen_scenario(rng, *, kind, q, d, k, nsteps, cal, strategy, float_grid=True):
         inst["lam"] = [F(1)] * d  # default scales
     inst["kind"] = kind
     inst["strategy"] = strategy
+    # jet-lifted constraints (two output rows per dimension) with observation damping, where the state can hold them
+    if kind in ("general", "decoupled") and q >= k + 1 and rng.random() < 0.4:
+        inst["lift"] = 1
+        inst["damp"] = rng.choice([F(1, 4), F(1, 2), F(0)])
     t0 = float(inst["t0"])
     steps = [rng.choice([1 / 16, 1 / 8, 3 / 16, 1 / 10, 0.07, 1 / 4]) for _ in range(nsteps)]
     inst["grid"] = [t0 + float(sum(steps[:j])) for j in range(nsteps + 1)]
